@@ -323,8 +323,17 @@ def run_noise_threads(ctx, hist, r, split, det0):
     feats = {"mode": "noise_threads", "split_writes": split}
     det = dict(det0, history=hist, split_writes=split)
     if stuck:
-        waiting = [e for e in events if e["op"] == "acquire"]
-        ctx.viol("call_never_returned", dict(det, last_events=events[-10:]), features=dict(feats, kind="call_never_returned"))
+        # wall-clock is never a verdict: a deadlock is reported only if every worker that has not returned is
+        # waiting for a lock (its last event is an 'acquire' that never completed); otherwise inconclusive
+        last = {}
+        for e in events:
+            if e["w"] != "main":
+                last[e["w"]] = e
+        alive = [w for w in hist if not any(e["op"] == "call_end" and e["w"] == w and e["info"]["k"] == len(hist[w]) - 1 for e in events)]
+        if alive and all(last.get(w, {}).get("op") == "acquire" for w in alive):
+            ctx.viol("call_never_returned", dict(det, waiting={w: last[w]["obj"] for w in alive}, last_events=events[-10:]), features=dict(feats, kind="call_never_returned"))
+        else:
+            ctx.count("C16.inconclusive_watchdog")
         return
     ctx.count("C16.schedules_judged")
     ctx.count("C16.noise_thread_histories_judged")
@@ -392,7 +401,7 @@ def run_processes(ctx, hist, r, split, use_pool, det0):
                 res = pool.starmap_async(pool_call, args)
                 res.get(timeout=120)
         except multiprocessing.TimeoutError:
-            ctx.viol("call_never_returned", det, features=dict(feats, kind="call_never_returned"))
+            ctx.count("C16.inconclusive_watchdog")  # wall-clock is never a verdict
             return
         except Exception as e:  # noqa: BLE001
             ctx.viol("call_raised", dict(det, exc=repr(e)[:300]), features=dict(feats, kind="call_raised"))
@@ -412,7 +421,18 @@ def run_processes(ctx, hist, r, split, use_pool, det0):
             if p.is_alive():
                 p.kill()
         if alive:
-            ctx.viol("call_never_returned", dict(det, workers=alive), features=dict(feats, kind="call_never_returned"))
+            evs = []
+            for fn in os.listdir(evdir):
+                if fn.startswith("ev_"):
+                    with open(os.path.join(evdir, fn)) as fh:
+                        evs += [json.loads(l) for l in fh if l.strip()]
+            last = {}
+            for e in sorted(evs, key=lambda e: e["t"]):
+                last[e["w"]] = e
+            if all(last.get(w, {}).get("op") == "acquire" for w in alive):
+                ctx.viol("call_never_returned", dict(det, workers=alive, waiting={w: last[w]["obj"] for w in alive}), features=dict(feats, kind="call_never_returned"))
+            else:
+                ctx.count("C16.inconclusive_watchdog")
             return
         for w, p in procs:
             rp = os.path.join(evdir, f"res_{w}.json")
